@@ -1,9 +1,29 @@
-// Package c19: check for property C19 (stub until implemented).
+// Package c19: generated primes and pre-parameters have the structure the proofs assume.
+//
+//	(a) inputs.go    every reader answer for one draw of the safe-prime generator and of the samplers (ENUM)
+//	(b) sched.go     goroutine schedules of the concurrent generator (SCHED)
+//	(c) preparams.go pre-parameter generation, reduced sizes via a build overlay / real size (ENUM)
 package c19
 
 import "verif/internal/core"
 
 // Implemented reports whether this check is built.
-const Implemented = false
+const Implemented = true
 
-func Run(r *core.Run) { r.Cap("not implemented") }
+func Run(r *core.Run) {
+	runInputs(r)
+	runPreParams(r)
+	runSchedules(r)
+
+	ev := r.Get("gen_calls") + r.Get("validate_calls") + r.Get("ntilde_calls") + r.Get("sampler_calls") +
+		r.Get("pp_runs") + r.Get("sched_runs")
+	r.Set("evaluations", int(ev))
+	r.Set("distinct_nontrivial", r.NDistinct("cases"))
+	r.Set("rule", "evaluations = calls of the code under test: generator calls (one per enumerated reader answer for one draw: "+
+		"every raw byte string of the draw width for numPrimes=1, every value of the unmasked bits at draw positions 0 and 1 for numPrimes=2,3; "+
+		"plus parameter/reader-error cases and, thorough, two 1024-bit runs) + Validate() calls on every pair (q, 2q+1 and near misses) below the size bound "+
+		"+ GenerateNTildei calls + sampler calls (every first-draw byte string per bound and sampler, boundary first draws for 2048-bit bounds) "+
+		"+ pre-parameter generations + schedules of part (b). A case is distinct when it differs in "+
+		"(function, size or bound, outcome): for the generator the returned list of primes, for samplers the outcome class "+
+		"(no entropy needed / first draw accepted / redrawn / refused / hang), for pre-parameters (sizes, seed).")
+}
